@@ -91,6 +91,7 @@ class Ctor(Obligation):
         self.max_paths = 300
         self.skip_validation = True
         self.replay_any_violation = True
+        self.trig_sign_axioms = True
 
     def build(self, mk):
         P = {n: mk(n) for n in self.sym_params}
